@@ -348,6 +348,54 @@ def check(fx, rep, tier):
             sample={"rule": "R11.5", "fn": name, "readers": readers, "reviewed_as": row[2][:80] if row else None},
         )
 
+    # a table of hash pre-images built from a bounded range of slot numbers makes recognition depend on the slot number
+    n_tab = 0
+    cg5 = F.CallGraph(fx)
+    for b in fx.fn_bodies():
+        if not b.get("hir") or "tc::lift" not in b["def"]:
+            continue
+        root5 = b["hir"]["value"]
+        for m, mps in F.exprs(root5, "Match"):
+            if "ForLoop" not in m.get("source", ""):
+                continue
+            names = [F.strip_generics(F.callee(c) or F.callee_def(c) or "") for c, _ in F.calls(m)]
+            hashes = any("Keccak" in x or x.endswith("::finalize") or "sha3" in x.lower() for x in names)
+            inserts = any(c.get("k") == "MethodCall" and c["method"] == "insert" and "Map<" in (c.get("recv_ty") or "") for c, _ in F.calls(m))
+            rng = [x for x, _ in F.walk(m["scrut"]) if x.get("k") == "Struct" and "ops::Range" in str(x.get("adt"))]
+            if not (hashes and inserts and rng):
+                continue
+            n_tab += 1
+            end = next((f["e"] for f in rng[0]["fields"] if f["field"] == "end"), None)
+            bound = None
+            et = T.term(end, T.Env()) if end is not None else None
+            if et is not None and et[0] == "path":
+                bound = fx.const_value(et[1])
+            if et is not None and et[0] == "local":
+                # a parameter: look at what the crate's callers pass
+                pidx = next((i for i, p in enumerate(b["hir"]["params"]) if p.get("local") == et[1]), None)
+                for cb in fx.fn_bodies():
+                    if not cb.get("hir"):
+                        continue
+                    for c, _ in F.calls(cb["hir"]["value"]):
+                        if b["def"] in cg5.resolve_local(c) and pidx is not None and pidx < len(F.call_args(c)):
+                            at = T.term(F.call_args(c)[pidx], T.Env())
+                            if at[0] == "path" and fx.const_value(at[1]) is not None:
+                                bound = fx.const_value(at[1])
+                            if at[0] == "lit":
+                                try:
+                                    bound = int(at[1])
+                                except (TypeError, ValueError):
+                                    pass
+            rep.oblige(
+                False,
+                "R11.5",
+                f"finite-hash-table:{bound if bound is not None else '?'}",
+                F.loc(m["span"]),
+                f"`{b['def']}` builds the table that recognises `keccak(slot number)` constants from the slot numbers 0..{bound if bound is not None else '?'} only: an array whose slot is renumbered beyond that bound is no longer recognised, so its type depends on its slot number",
+                sample={"rule": "R11.5", "fn": b["def"], "slot_numbers_recognised_below": bound},
+            )
+    rep.extra["hash_preimage_tables"] = n_tab
+
     # evidence of an earlier run must not take part in the next one (shared with C05 R05.7)
     from .c05 import check_fresh_run
 
